@@ -1,6 +1,168 @@
 import OtelVerif.Common.Line
-import OtelVerif.Model.C09
-/-! driver for C09 (stub) -/
-def main : IO UInt32 := do
-  IO.eprintln "drv_c09: not built yet"
-  return 2
+import OtelVerif.Model.C09Fmt
+/-! driver for C09: model `c09-graph`
+
+ops (see harness/c09/graph_test.go):
+  conn <id> <pairs|->                 configured connector, supported pairs like `01,12` (exporter-side, receiver-side signal)
+  pipe <sig> <name> <recv> <procs> <exps>   comma separated component ids, `-` = empty
+  build                               → obs build ok|err=connector|err=cycle ; obs nodes <key=count …> (sorted)
+  inject <sig> <id>                   → obs route <n> <exporter|trail …> (sorted)
+-/
+open OtelVerif OtelVerif.Line OtelVerif.C09 OtelVerif.C09.Fmt
+
+namespace OtelVerif.Drivers.C09
+
+def deliveryTok (trail : List Node) (e : Node) : String :=
+  nodeTok e ++ "|" ++ ">".intercalate (trail.map nodeTok)
+
+def walkTok (w : List Node) : String :=
+  match w.getLast? with
+  | some e => deliveryTok (trailOf w) e
+  | none => "?|"
+
+/-! ### config-level reference, written directly on the configuration (the search oracle) -/
+
+def routesRef (cfg : Cfg) : Nat → Pipeline → List (List Node × Node)
+  | 0, _ => []
+  | k + 1, p =>
+    (dedup p.exps).flatMap (fun e =>
+      if cfg.isConn e then
+        (nextPipes cfg p e).flatMap (fun q =>
+          (routesRef cfg k q).map (fun te => (procNodes p ++ [Node.conn p.id.sig q.id.sig e] ++ te.1, te.2)))
+      else [(procNodes p, Node.exp p.id.sig e)])
+
+def routesFrom (cfg : Cfg) (s : Sig) (r : CompId) : List (List Node × Node) :=
+  (cfg.pipes.filter (fun p => p.id.sig = s ∧ r ∈ p.recv ∧ !cfg.isConn r)).flatMap (routesRef cfg (cfg.pipes.length + 1))
+
+def iter {α : Type} (f : α → α) : Nat → α → α
+  | 0, a => a
+  | k + 1, a => iter f k (f a)
+
+/-- pipeline-level cycle in connector usage: some pipeline reaches itself through `feeds` -/
+def pipeCyclic (cfg : Cfg) : Bool :=
+  let step (vis : List PipeId) : List PipeId :=
+    dedup (vis ++ ((cfg.pipes.filter (fun p => p.id ∈ vis)).flatMap (fun p => (cfg.pipes.filter (feeds cfg p)).map (·.id))))
+  cfg.pipes.any (fun p => p.id ∈ iter step cfg.pipes.length ((cfg.pipes.filter (feeds cfg p)).map (·.id)))
+
+/-- some used connector has a use with no supported counterpart -/
+def someUnsupported (cfg : Cfg) : Bool :=
+  cfg.pipes.any (fun p =>
+    p.exps.any (fun c => cfg.isConn c && !(cfg.pipes.any (fun q => (c ∈ q.recv) && cfg.supp c p.id.sig q.id.sig))) ||
+    p.recv.any (fun c => cfg.isConn c && !(cfg.pipes.any (fun q => (c ∈ q.exps) && cfg.supp c q.id.sig p.id.sig))))
+
+def expectedKeys (cfg : Cfg) : List String :=
+  let r := dedup (cfg.pipes.flatMap (fun p => (p.recv.filter (fun x => !cfg.isConn x)).map (fun x => Node.recv p.id.sig x)))
+  let e := dedup (cfg.pipes.flatMap (fun p => (p.exps.filter (fun x => !cfg.isConn x)).map (fun x => Node.exp p.id.sig x)))
+  let pr := cfg.pipes.flatMap (fun p => p.procs.map (fun x => Node.proc p.id x))
+  let c := dedup (cfg.pipes.flatMap (fun p => p.exps.flatMap (fun x =>
+    if cfg.isConn x then (cfg.pipes.filter (fun q => (x ∈ q.recv) && cfg.supp x p.id.sig q.id.sig)).map (fun q => Node.conn p.id.sig q.id.sig x) else [])))
+  sortStr ((r ++ e ++ pr ++ c).map (fun n => nodeTok n ++ "=1"))
+
+structure S where
+  cfg : Cfg := { pipes := [], conns := [] }
+  built : Option (Option BuildErr) := none
+  es : Option (List (Node × Node)) := none
+  /-- implementation observations: build outcome, node counts, per injection (sig, id, tokens) -/
+  implBuild : Option String := none
+  implNodes : Option (List String) := none
+  pendingInject : Option (Sig × Nat) := none
+  implRoutes : List (Sig × Nat × List String) := []
+  bad : Option String := none
+
+def firstDiff (want got : List String) : String :=
+  let missing := want.filter (fun t => want.count t > got.count t)
+  let extra := got.filter (fun t => got.count t > want.count t)
+  s!"missing={missing.take 3} extra={extra.take 3}"
+
+def handler : Handler S where
+  init := {}
+  onOp := fun s toks =>
+    match toks with
+    | ["conn", i, pairs] =>
+      match i.toNat?, parsePairs pairs with
+      | some i, some ps => ({ s with cfg := { s.cfg with conns := s.cfg.conns ++ [{ id := i, supp := ps }] } }, [])
+      | _, _ => (s, ["obs bad-op"])
+    | ["pipe", sg, name, r, p, e] =>
+      match sg.toNat?.bind Sig.ofNat?, name.toNat?, parseIds r, parseIds p, parseIds e with
+      | some sg, some name, some r, some p, some e =>
+        ({ s with cfg := { s.cfg with pipes := s.cfg.pipes ++ [{ id := { sig := sg, name := name }, recv := r, procs := p, exps := e }] } }, [])
+      | _, _, _, _, _ => (s, ["obs bad-op"])
+    | ["build"] =>
+      let b := build s.cfg
+      let s := { s with built := some b, es := some (edges s.cfg) }
+      match b with
+      | some .connector => (s, ["obs build err=connector"])
+      | some .cycle => (s, ["obs build err=cycle"])
+      | none =>
+        let keys := sortStr (((nodes s.cfg).filter Node.isComp).map (fun n => nodeTok n ++ "=1"))
+        (s, ["obs build ok", "obs nodes " ++ " ".intercalate keys])
+    | ["inject", sg, i] =>
+      match sg.toNat?.bind Sig.ofNat?, i.toNat? with
+      | some sg, some i =>
+        let s := { s with pendingInject := some (sg, i) }
+        let es := s.es.getD (edges s.cfg)
+        match deliver (succOf es) (es.length + 2) (Node.recv sg i) with
+        | some ws =>
+          let toks := sortStr (ws.map walkTok)
+          (s, [s!"obs route {toks.length} " ++ " ".intercalate toks])
+        | none => (s, ["obs route out-of-fuel"])
+      | _, _ => (s, ["obs bad-op"])
+    | _ => (s, ["obs bad-op"])
+  onObs := fun s toks =>
+    match toks with
+    | "obs" :: "build" :: rest => { s with implBuild := some (" ".intercalate rest) }
+    | "obs" :: "nodes" :: rest => { s with implNodes := some rest }
+    | "obs" :: "route" :: _ :: rest =>
+      match s.pendingInject with
+      | some (sg, i) => { s with implRoutes := s.implRoutes ++ [(sg, i, rest)], pendingInject := none }
+      | none => { s with bad := some "route observation without inject" }
+    | _ => s
+  onEnd := fun s =>
+    let cfg := s.cfg
+    -- rejection clause, judged on the configuration alone
+    let unsup := someUnsupported cfg
+    let cyc := pipeCyclic cfg
+    let rejectProp :=
+      match s.implBuild with
+      | none => "prop reject=ok"
+      | some "ok" =>
+        if unsup then "prop reject=FAIL sig=C09/reject/accepted-unsupported-connector-use"
+        else if cyc then "prop reject=FAIL sig=C09/reject/accepted-connector-cycle"
+        else "prop reject=ok"
+      | some other =>
+        if unsup || cyc then
+          (if other = "err=connector" && !unsup then "prop reject=FAIL sig=C09/reject/wrong-error-class-connector"
+           else if other = "err=cycle" && unsup then "prop reject=FAIL sig=C09/reject/wrong-error-class-cycle"
+           else "prop reject=ok")
+        else s!"prop reject=FAIL sig=C09/reject/rejected-valid-configuration {other}"
+    let sharingProp :=
+      match s.implNodes with
+      | none => "prop sharing=ok"
+      | some got =>
+        let want := expectedKeys cfg
+        if got = want then "prop sharing=ok"
+        else
+          let kind := match (got.filter (fun t => !(want.contains t)) ++ want.filter (fun t => !(got.contains t))).head? with
+            | some t => (t.take 1).toString
+            | none => "?"
+          s!"prop sharing=FAIL sig=C09/sharing/instances-{kind} {firstDiff want got}"
+    let routeFail := s.implRoutes.findSome? (fun (sg, i, got) =>
+      let ref := routesFrom cfg sg i
+      let want := sortStr (ref.map (fun te => deliveryTok te.1 te.2))
+      if got = want then none
+      else
+        let expOf (t : String) : String := (t.splitOn "|").headD ""
+        let cls :=
+          if sortStr (got.map expOf) = sortStr (want.map expOf) then "wrong-processor-trail"
+          else if (want.map expOf).any (fun e => !((got.map expOf).contains e)) then "exporter-not-reached"
+          else if (got.map expOf).any (fun e => !((want.map expOf).contains e)) then "unlisted-exporter-reached"
+          else "wrong-multiplicity"
+        some s!"prop routing=FAIL sig=C09/routing/{cls} recv={sg.toNat}:{i} {firstDiff want got}")
+    match s.bad with
+    | some b => [s!"prop protocol=FAIL sig=C09/harness/unparsable {b}"]
+    | none => [rejectProp, sharingProp, routeFail.getD "prop routing=ok"]
+
+end OtelVerif.Drivers.C09
+
+def main : IO UInt32 :=
+  runMulti [("c09-graph", run OtelVerif.Drivers.C09.handler)]
